@@ -710,6 +710,15 @@ func TestVerifC11(t *testing.T) {
 			atts = append(atts, att{"contract-native-id", 2, zeroId, []byte{0, 255}, d, vc11Pad32([]byte(sn[0])), vc11Pad32([]byte(sn[1])), true})
 		}
 	}
+	// padding on the right (the EVM bytes32 convention) or on both sides: attestToken only asserts 32 bytes, where the caller puts the
+	// zeros is not constrained; the symbol / name the contract encoded is the text without that padding
+	for i, nm := range [][]byte{[]byte("USDT"), []byte("Tether USD"), []byte("a b"), bytes.Repeat([]byte("z"), 31)} {
+		right := append(append([]byte{}, nm...), make([]byte, 32-len(nm))...)
+		both := append(make([]byte, (32-len(nm))/2), append(append([]byte{}, nm...), make([]byte, 32-len(nm)-(32-len(nm))/2)...)...)
+		atts = append(atts, att{"contract-right-padded", 2, r.bytes(32), []byte{0, 255}, byte(6 + i), right, vc11Pad32(nm), true})
+		atts = append(atts, att{"contract-right-padded", 2, r.bytes(32), []byte{0, 255}, byte(6 + i), vc11Pad32(nm), right, true})
+		atts = append(atts, att{"contract-padded-on-both-sides", 2, r.bytes(32), []byte{0, 255}, byte(6 + i), both, both, true})
+	}
 	inner := [][]byte{append([]byte("ab"), make([]byte, 30)...), append(append(make([]byte, 10), []byte("a\x00b")...), make([]byte, 19)...), make([]byte, 32), append([]byte{0}, bytes.Repeat([]byte("q"), 31)...),
 		append(bytes.Repeat([]byte("q"), 31), 0), append(append(make([]byte, 5), []byte("mid")...), make([]byte, 24)...)}
 	for _, s := range inner {
@@ -736,7 +745,7 @@ func TestVerifC11(t *testing.T) {
 			row["sym"] = vc11hx(ti.Symbol)
 			row["name"] = vc11hx(ti.Name)
 			if a != nil && a.contractish {
-				if !bytes.Equal(ti.TokenId[:], a.id) || ti.Decimals != a.dec || ti.Symbol != string(bytes.TrimLeft(a.sym, "\x00")) || ti.Name != string(bytes.TrimLeft(a.name, "\x00")) {
+				if !bytes.Equal(ti.TokenId[:], a.id) || ti.Decimals != a.dec || ti.Symbol != string(bytes.Trim(a.sym, "\x00")) || ti.Name != string(bytes.Trim(a.name, "\x00")) {
 					mon = append(mon, "attestation payload decodes to other values than the contract encoded")
 				}
 			}
